@@ -14,9 +14,11 @@ import (
 	"net"
 	"net/http"
 	"os"
+	"strconv"
 	"strings"
 	"time"
 
+	kgz "github.com/klauspost/compress/gzip"
 	"github.com/nlnwa/whatwg-url/url"
 )
 
@@ -51,6 +53,16 @@ func oracleAnswer(kind string, args []string) string {
 			return "err"
 		}
 		return hx(b)
+	case "gzsize":
+		var b bytes.Buffer
+		w, _ := kgz.NewWriterLevel(&b, kgz.DefaultCompression)
+		w.Write(unhx(args[0]))
+		w.Close()
+		return strconv.Itoa(b.Len())
+	case "scale":
+		ratio, _ := strconv.ParseFloat(args[0], 64)
+		size, _ := strconv.ParseInt(args[1], 10, 64)
+		return strconv.FormatInt(int64(float64(size)*ratio), 10)
 	case "urlid":
 		if _, err := url.Parse(unhxs(args[0])); err != nil {
 			return "0"
